@@ -175,7 +175,9 @@ func c06Monitor(m *vk.Meta, in mgrIn, out mgrOut) {
 				viol("an approved request is not re-judged on retry", fmt.Sprintf("%s (run_count %d): first write was %s", swIdent(before), before.RunCount, firstSwitchWrite), nil)
 			}
 		}
-		if performed && stillPending && !aborted && !timedOut {
+		// an attempt that was started (the request stored as started) and left the request pending has failed - also when it
+		// was given up before it touched any node (a host answering pings with a dubious error); a lost lock is no attempt
+		if (performed || started && !dcsFaulty && st.Panic == "" && setsSwitch >= 2) && stillPending && !aborted && !timedOut {
 			if after.RunCount != before.RunCount+1 {
 				viol("each failed attempt is counted", fmt.Sprintf("%s run_count %d -> %d after a failed attempt", swIdent(before), before.RunCount, after.RunCount), nil)
 			}
@@ -198,6 +200,8 @@ func c06Gen(o *vk.Out) mgrIn {
 				c.Stopped = true
 			case 2:
 				c.Exec = "1-90" // behind: catch-up needed
+			case 3:
+				c.Dubious = true // answers the manager's pings with 1040: every attempt is given up at once - and counted
 			}
 		}
 		in.Nodes = append(in.Nodes, c)
